@@ -139,7 +139,9 @@ def generic_forms(ctx, st, pt):
         r = rng.random()
         if r < 0.25:
             # prefixed signed number = mass shift
-            pre = rng.choice(['U:', 'UNIMOD:', 'M:', 'MOD:', 'X:', 'XLMOD:', 'R:', 'RESID:', 'G:', 'GNO:', 'Obs:', 'obs:'])
+            pre = rng.choice(['U:', 'UNIMOD:', 'M:', 'MOD:', 'X:', 'XLMOD:', 'R:', 'RESID:', 'G:', 'GNO:', 'Obs:', 'obs:',
+                              'PSI-MOD:', 'psi-mod:', 'Psi-Mod:', 'u:', 'unimod:', 'Unimod:', 'm:', 'mod:', 'x:', 'xlmod:',
+                              'r:', 'resid:', 'g:', 'gno:'])
             v = round(rng.uniform(-500, 500), rng.choice([0, 1, 3, 6])) + 0.0
             if v == 0:
                 v = 0.0
@@ -150,6 +152,25 @@ def generic_forms(ctx, st, pt):
             if not (got and got[0] == 'ok' and abs(got[1] - v) <= 1e-9):
                 ctx.violation('prefixed-number-not-a-mass-shift', {'text': text, 'expected': v, 'observed': got})
             ctx.sig(('prefixed-number', pre.lower(), v < 0), True)
+            if rng.random() < 0.3:
+                # the same spelling on a peptide, through the direct route, the composition route (isotope label) and
+                # the composition calculator's residual
+                lab = rng.choice(['<13C>', '<15N>'])
+                try:
+                    with ctx.eng.suspend():
+                        d1 = pt.mass(f'PEPT[{text}]IDE') - pt.mass('PEPTIDE')
+                        d2 = pt.mass(f'{lab}PEPT[{text}]IDE') - pt.mass(f'{lab}PEPTIDE')
+                        d3 = pt.comp_mass(f'[{text}]-PEPTIDE')[1]
+                    ok = all(abs(d - v) <= 1e-6 for d in (d1, d2, d3))
+                    obs3 = (d1, d2, d3)
+                except Exception as ex:
+                    ok, obs3 = False, f'{type(ex).__name__}: {ex}'[:200]
+                ctx.decided()
+                if not ok:
+                    ctx.violation('prefixed-number-not-a-mass-shift-on-a-peptide',
+                                  {'text': text, 'expected': v, 'label': lab,
+                                   'observed(direct, labelled, composition residual)': obs3})
+                ctx.sig(('prefixed-number-peptide', pre.lower()), True)
             continue
         if r < 0.6:
             # formula with isotopes, negative and fractional counts
